@@ -201,6 +201,64 @@ class KindEngine:
             return self._einsum(t, pos[0].args[0], pos[1:])
         if fn in ("matmul", "dot") and len(pos) == 2:
             return self._matmul(t, self.k(pos[0]), self.k(pos[1]))
+        if fn == "tensordot" and len(pos) >= 2:
+            ka, kb = self.k(pos[0]), self.k(pos[1])
+            ax = kws.get("axes", pos[2] if len(pos) > 2 else None)
+            if ka is None or kb is None or ax is None:
+                return None
+
+            def ints(x):
+                x = strip_wrappers(x)
+                if x.op == "const" and isinstance(x.args[0], int):
+                    return [x.args[0]]
+                if x.op in ("tuple", "list") and all(strip_wrappers(y).op == "const" and
+                                                     isinstance(strip_wrappers(y).args[0], int) for y in x.args):
+                    return [strip_wrappers(y).args[0] for y in x.args]
+                return None
+            axs = strip_wrappers(ax)
+            if axs.op == "const" and isinstance(axs.args[0], int):
+                n_ = axs.args[0]
+                ia, ib = list(range(len(ka) - n_, len(ka))), list(range(n_))
+            elif axs.op in ("tuple", "list") and len(axs.args) == 2:
+                ia, ib = ints(axs.args[0]), ints(axs.args[1])
+            else:
+                return None
+            if ia is None or ib is None or len(ia) != len(ib):
+                return None
+            ia = [i % len(ka) for i in ia]
+            ib = [i % len(kb) for i in ib]
+            self.checked_sites += 1
+            for i, j in zip(ia, ib):
+                if not self._compat(ka[i], kb[j]):
+                    self.bad(t, f"tensordot contracts an axis of kind {ka[i]} with an axis of kind {kb[j]} "
+                                f"(operands {ka} and {kb})")
+                    return None
+            return tuple(k_ for i, k_ in enumerate(ka) if i not in ia) + tuple(k_ for j, k_ in enumerate(kb) if j not in ib)
+        if fn == "swapaxes" and len(pos) == 3:
+            ka = self.k(pos[0])
+            i_, j_ = strip_wrappers(pos[1]), strip_wrappers(pos[2])
+            if ka is None or i_.op != "const" or j_.op != "const":
+                return None
+            lst = list(ka)
+            try:
+                lst[i_.args[0]], lst[j_.args[0]] = lst[j_.args[0]], lst[i_.args[0]]
+            except (IndexError, TypeError):
+                return None
+            return tuple(lst)
+        if fn == "transpose" and pos:
+            ka = self.k(pos[0])
+            perm = kws.get("axes", pos[1] if len(pos) > 1 else None)
+            if ka is None:
+                return None
+            if perm is None:
+                return tuple(reversed(ka))
+            pm = strip_wrappers(perm)
+            if pm.op in ("tuple", "list") and all(strip_wrappers(y).op == "const" for y in pm.args) and len(pm.args) == len(ka):
+                try:
+                    return tuple(ka[strip_wrappers(y).args[0]] for y in pm.args)
+                except (IndexError, TypeError):
+                    return None
+            return None
         if fn in ("zeros_like",) and pos:
             return self.k(pos[0])
         if fn == "block" and pos and pos[0].op == "list":
